@@ -287,14 +287,14 @@ class GenericSpatialTransform(SequentialTransform):
             else:
                 _modules.update(modules)
                 modules = _modules
-        # Set parameters of transformation if given as dictionary
-        if isinstance(params, Mapping):
-            for name, transform in self.named_transforms():
-                transform.data_(params[name])
         # Insert transformations in order of composition
         super().__init__(grid, modules)
         self.config = config
         self.params = params if callable(params) else None
+        # Set parameters of transformation if given as dictionary (requires self._transforms, i.e., initialized base class)
+        if isinstance(params, Mapping):
+            for name, transform in self.named_transforms():
+                transform.data_(params[name])
 
     def _data(self) -> Dict[str, Tensor]:
         r"""Get most recent transformation parameters."""
